@@ -218,7 +218,10 @@ def run(ctx):
     for (ev, key), f in feats.items():
         if ev == 'Enter':
             a = f['arm']
-            handled.add(a.sub if a.sub else a.kind)
+            # an arm counts as the handler of its kind when it is unconditional, or conditional only on the documented flag
+            # (`include under ignore_include deliberately contributes nothing)
+            if f['guard'] in (None, '!ignore_include'):
+                handled.add(a.sub if a.sub else a.kind)
 
     def check_variants(en, prefix):
         for v, payload in nt.enums[en]['variants']:
